@@ -108,7 +108,9 @@ func main() {
 	verbose := flag.Bool("v", false, "verbose")
 	jobs := flag.Int("j", 16, "parallel solver jobs")
 	flag.Parse()
-	seedStr = fmt.Sprint(*seed)
+	// the solvers always run with their fixed default seed first (reproducible verdicts); a non-zero -seed / VERIF_SEED is
+	// only used for one extra attempt on obligations that are still undecided, so it can never turn a pass into an alarm
+	altSeed = fmt.Sprint(*seed)
 	t0 := time.Now()
 	if *replayFile != "" {
 		os.Exit(rerunReplay(*repo, *replayFile))
